@@ -288,3 +288,111 @@ def lift(x):
 
 def fresh_val(prefix="v"):
     return z3.Const(fresh_name(prefix), Val)
+
+
+# --------------------------------------------------------------------------- model decoding
+def _unescape(s: str) -> str:
+    if "\\u{" not in s:
+        return s
+    out, i = [], 0
+    while i < len(s):
+        if s.startswith("\\u{", i):
+            j = s.index("}", i)
+            out.append(chr(int(s[i + 3:j], 16)))
+            i = j + 1
+        else:
+            out.append(s[i])
+            i += 1
+    return "".join(out)
+
+
+def _seq_elems(t):
+    """elements of an evaluated Seq term (empty / unit / concat of those)"""
+    if z3.is_app(t):
+        k = t.decl().kind()
+        if k == z3.Z3_OP_SEQ_EMPTY:
+            return []
+        if k == z3.Z3_OP_SEQ_UNIT:
+            return [t.arg(0)]
+        if k == z3.Z3_OP_SEQ_CONCAT:
+            out = []
+            for c in t.children():
+                r = _seq_elems(c)
+                if r is None:
+                    return None
+                out.extend(r)
+            return out
+    return None
+
+
+def decode(t, depth=0):
+    """Evaluated Val term -> python data (best effort; unknown parts become strings)."""
+    if depth > 6:
+        return "..."
+    t = z3.simplify(t)
+    if t.sort() == Val:
+        cn = ctor_name(t)
+        if cn == "none":
+            return None
+        if cn == "bool":
+            return z3.is_true(t.arg(0))
+        if cn == "int":
+            a = t.arg(0)
+            return a.as_long() if z3.is_int_value(a) else str(a)
+        if cn == "real":
+            a = t.arg(0)
+            try:
+                return float(a.as_fraction())
+            except Exception:
+                return str(a)
+        if cn in ("str", "bytes"):
+            a = t.arg(0)
+            if z3.is_string_value(a):
+                s = _unescape(a.as_string())
+                return s if cn == "str" else {"$bytes": s}
+            return str(a)
+        if cn in ("list", "tuple"):
+            el = _seq_elems(t.arg(0))
+            if el is None:
+                return str(t)[:200]
+            r = [decode(e, depth + 1) for e in el]
+            return r if cn == "list" else {"$tuple": r}
+        if cn == "obj":
+            return {"$obj": str(t.arg(0))}
+        if cn == "dict":
+            keys = {}
+            ks, vs = t.arg(1), t.arg(2)
+            # walk the store chain of the key set
+            present, cur = {}, ks
+            while z3.is_store(cur):
+                k, b = cur.arg(1), cur.arg(2)
+                if z3.is_string_value(k):
+                    present.setdefault(_unescape(k.as_string()), z3.is_true(b))
+                cur = cur.arg(0)
+            vals, cur = {}, vs
+            while z3.is_store(cur):
+                k, v = cur.arg(1), cur.arg(2)
+                if z3.is_string_value(k):
+                    vals.setdefault(_unescape(k.as_string()), v)
+                cur = cur.arg(0)
+            out = {}
+            for k, p in present.items():
+                if p:
+                    out[k] = decode(vals[k], depth + 1) if k in vals else None
+            return out
+        if cn in ("fn", "cls"):
+            return {"$" + cn: str(t.arg(0))}
+        return str(t)[:200]
+    if z3.is_int_value(t):
+        return t.as_long()
+    if z3.is_true(t) or z3.is_false(t):
+        return z3.is_true(t)
+    if z3.is_string_value(t):
+        return _unescape(t.as_string())
+    if z3.is_rational_value(t):
+        return float(t.as_fraction())
+    if z3.is_seq(t) and not z3.is_string(t):
+        el = _seq_elems(t)
+        if el is not None:
+            return [decode(e, depth + 1) for e in el]
+    return str(t)[:200]
